@@ -83,7 +83,10 @@ def case_strategy(draw: Any, runners: List[str]) -> Dict[str, Any]:
                                         "500 Internal Server Error", "299 Odd Reason Here"])),
         "resp_headers": draw(st.lists(st.sampled_from(
             [["Content-Type", "text/plain"], ["X-Mixed-Case", "V"], ["set-cookie", "a=1"],
-             ["set-cookie", "b=2"], ["x-empty", ""]]), max_size=4)),
+             ["set-cookie", "b=2"], ["x-empty", ""],
+             # PEP 3333 native strings: latin-1 code points stand for the octets to send
+             ["Content-Disposition", "attachment; filename=caf\xe9.txt"],
+             ["X-Echo", "\xfcber \xff"]]), max_size=4)),
         "chunks": chunks,
         "raise_at": draw(st.integers(0, 3)),
         "has_client": draw(st.booleans()),
